@@ -258,6 +258,29 @@ func (dec *Decoder) DiscardLine() {
 	var text string
 	dec.Text(&text)
 	dec.CRLF()
+
+	// The discarded line may end with a literal header. The payload of a
+	// non-synchronizing literal is sent right away by the client, so it will
+	// follow: record it as unread so that it doesn't get decoded as regular
+	// data (see UnreadNonSyncLiteral).
+	if dec.side == ConnSideServer && dec.crlf && hasNonSyncLiteralSuffix(text) {
+		dec.literal = true
+		dec.nonSyncLiteral = true
+	}
+}
+
+// hasNonSyncLiteralSuffix checks whether s ends with "{<number>+}".
+func hasNonSyncLiteralSuffix(s string) bool {
+	if !strings.HasSuffix(s, "+}") {
+		return false
+	}
+	s = strings.TrimSuffix(s, "+}")
+	n := 0
+	for len(s) > 0 && s[len(s)-1] >= '0' && s[len(s)-1] <= '9' {
+		s = s[:len(s)-1]
+		n++
+	}
+	return n > 0 && strings.HasSuffix(s, "{")
 }
 
 func (dec *Decoder) DiscardValue() bool {
